@@ -4,6 +4,7 @@ open Datatypes
 
 let leqb = PeanoNat.Nat.eqb
 let thr = ref 32
+let unsat_limit = ref 40
 
 let build_fw (c : case) : nat Store.fw =
   let f = ref (Store.fw_new_with_labels leqb []) in
@@ -74,7 +75,8 @@ let print_log (log : (nat * Prog.event) list) =
    oracle on small cases only) *)
 let validate_log (log : (nat * Prog.event) list) =
   let sessions : (int, Cnf.clause list) Hashtbl.t = Hashtbl.create 8 in
-  let ok = ref 0 and bad = ref 0 and unsat = ref 0 in
+  let ok = ref 0 and bad = ref 0 and unsat = ref 0 and unsat_ok = ref 0 and unsat_bad = ref 0 in
+  let maxvar cl a = Stdlib.List.fold_left (fun acc c -> Stdlib.List.fold_left (fun x l -> max x (abs (int_of_z l))) acc c) 0 (a :: cl) in
   Stdlib.List.iter
     (fun (k, e) ->
       let k = int_of_nat k in
@@ -84,10 +86,18 @@ let validate_log (log : (nat * Prog.event) list) =
       | Prog.ESolve (a, Cnf.Sat m) ->
           let cl = try Hashtbl.find sessions k with Not_found -> [] in
           if Cnf.valid_sat cl a m then incr ok else incr bad
-      | Prog.ESolve (_, Cnf.Unsat) -> incr unsat
+      | Prog.ESolve (a, Cnf.Unsat) ->
+          incr unsat;
+          (* confirmed by the verified reference solver (Dpll.solve_n, C15_dpll_complete) when small *)
+          let cl = Stdlib.List.rev (try Hashtbl.find sessions k with Not_found -> []) in
+          let nv = maxvar cl a in
+          if nv <= !unsat_limit && Stdlib.List.length cl <= 400 then
+            (match Dpll.solve_n (nat_of_int nv) cl a with
+             | None -> incr unsat_ok
+             | Some _ -> incr unsat_bad)
       | _ -> ())
     log;
-  out (Printf.sprintf "val sat_ok=%d sat_bad=%d unsat=%d" !ok !bad !unsat)
+  out (Printf.sprintf "val sat_ok=%d sat_bad=%d unsat=%d unsat_ok=%d unsat_bad=%d" !ok !bad !unsat !unsat_ok !unsat_bad)
 
 let sem_of = function
   | "GR" -> AF.GR | "CO" -> AF.CO | "PR" -> AF.PR | "ST" -> AF.ST
